@@ -19,7 +19,7 @@ FORMAT_TWIN = True          # ambient monitor: every System matrix is also reque
 META = {
     "level_text": "Exploration: finite-difference D-oracle on the system-level Jacobians of generated systems covering every force law, interaction, external force/moment and actuator on its supported subsystems, at random states. Held on the systems and states generated.",
     "level_note": "float64; finite-difference oracle with measured uncertainty.",
-    "technique": "runtime return-value monitors on System methods with finite-difference D-oracle",
+    "technique": "runtime return-value monitors on System methods with finite-difference D-oracle + ambient format-twin monitor (every System matrix also requested as coo/csr/csc/array)",
 }
 CASE_TIMEOUT = 180
 KINDS = ([f"tpi:{l}" for l in forcegen.LAWS] + [f"rev:{l}" for l in forcegen.LAWS]
